@@ -94,6 +94,7 @@ func alignLoops(body ast.Node, fc *FuncContract) map[token.Pos]int {
 	out := map[token.Pos]int{}
 	used := map[int]bool{}
 	j := 0
+	placed := 0
 	for _, n := range ords {
 		h := fc.Loops[n].Hint
 		for k := j; k < len(src); k++ {
@@ -101,9 +102,15 @@ func alignLoops(body ast.Node, fc *FuncContract) map[token.Pos]int {
 				out[src[k].pos] = n
 				used[k] = true
 				j = k + 1
+				placed++
 				break
 			}
 		}
+	}
+	if placed < len(ords) && ords[len(ords)-1] <= len(src) {
+		// some hinted contract finds its loop nowhere (the loop's header was reworded) and there are enough loops for the
+		// positional numbering: keep the positions, the hint was only documentation
+		return m
 	}
 	for k, l := range src {
 		if !used[k] {
